@@ -214,7 +214,7 @@ impl SubCheck for Resolve {
         // years -100k: the only negative years whose two-digit part is zero
         let neg_century = (1i64..2600, 1u32..=12, 1u32..=28, crate::props::c09::text_time(), gen::offset_secs()).prop_map(|(k, m, d, t, off)| (cal::days_from_civil(-100 * k, m, d), t, off));
         let val = prop_oneof![8 => (crate::props::c12::fmt_day(), crate::props::c09::text_time(), gen::offset_secs()), 1 => edge, 2 => leap_end, 1 => neg_century];
-        let corrupt = proptest::collection::vec((0usize..NF, 0u8..6, any::<i64>()), 0..4);
+        let corrupt = proptest::collection::vec((0usize..NF, 0u8..7, any::<i64>()), 0..4);
         Some(
             (val, any::<u32>(), prop::bool::weighted(0.5), corrupt, 0u8..8)
                 .prop_map(|((day, t, off), mask, do_corrupt, cs, style)| {
@@ -251,6 +251,8 @@ impl SubCheck for Resolve {
                                 1 => base - 1,
                                 2 => match i { MONTH => 12, DAY => 31, ORD => 366, IWEEK | WSUN | WMON => 53, SEC => 60, H12 => 12, QUARTER => 4, YMOD | IMOD => 99, _ => base + 100 },
                                 3 => match i { MONTH | DAY | ORD | IWEEK | QUARTER | H12 => 1, _ => 0 },
+                                // the true value plus a multiple of a power of two (what a narrowing comparison cannot see)
+                                6 => base.wrapping_add(((raw % 3).abs() + 1) << [8u32, 16, 32, 32, 33][(raw.unsigned_abs() % 5) as usize]),
                                 4 => match i { YEAR | IYEAR => raw % 300_000, YDIV | IDIV => (raw % 3000).abs(), TS => raw % 10_000_000_000_000, OFF => raw % 100_000, NANO => (raw % 1_000_000_000).abs(), _ => (raw % 70).abs() },
                                 _ => match i { YEAR | IYEAR | OFF => if raw % 2 == 0 { i32::MAX as i64 + 1 } else { i32::MIN as i64 - 1 }, TS => if raw % 2 == 0 { i64::MAX } else { i64::MIN }, _ => if raw % 2 == 0 { -1 } else { raw } },
                             };
@@ -342,6 +344,19 @@ impl SubCheck for Resolve {
                         obs.label("setter_out_of_range");
                     }
                 }
+            }
+        }
+        // the fields are public: a nanosecond value the setter refuses, written directly, is a non-existent
+        // field value and no resolution may succeed with it
+        if let Some(v) = c.fields.f[NANO] {
+            if !in_setter_range(NANO, v) && (1_000_000_000..=u32::MAX as i64).contains(&v) && c.fields.f[SEC].is_some() {
+                obs.label("nanosecond_written_directly");
+                let mut q = p.clone();
+                q.nanosecond = Some(v as u32);
+                let rt = call("to_naive_time", || q.to_naive_time())?;
+                ensure!(rt.is_err(), "to_naive_time succeeded ({:?}) with the nanosecond field holding {v}", rt.ok());
+                let rd = call("to_naive_datetime_with_offset", || q.to_naive_datetime_with_offset(c.off))?;
+                ensure!(rd.is_err(), "to_naive_datetime_with_offset succeeded ({:?}) with the nanosecond field holding {v}", rd.ok());
             }
         }
         let f = &eff;
